@@ -65,25 +65,55 @@ def run(ctx):
     ctx.pyvc([unit], mons)
     create_wrapper_call_site(ctx)
     from contracts import ast_nodes
-    ctx.pyvc(ast_nodes.UNITS, {})
+    ctx.pyvc(ast_nodes.UNITS, dict((u.name, ("m_equiv", lambda v: None, lambda nm: {"must_contain": ["inline attributes"]}, 110))
+                                   for u in ast_nodes.UNITS))
     ast_nodes.scope_wiring_items(ctx, REPO)
+    # instantiating a class template keeps every enclosing scope (blocks) of its functions: ClassNode.clone, clone_scope_chain
+    from contracts import ast_clone
+    eqv = ("m_equiv", lambda v: None, lambda nm: None, 110)
+    ctx.pyvc(ast_clone.UNITS, dict((u.name, eqv) for u in ast_clone.UNITS))
     try:
         from contracts import util_scope
         ctx.pyvc(util_scope.UNITS, {})
     except ImportError:
         pass
+    # create_wrapper is documented for build scripts: called any number of times in one process, each call must equal a
+    # fresh command line -- every process-global the run depends on is reset (or never mutated) per run
+    from effects.history import history_items
+    history_items(ctx, "C14", "create_wrapper called after earlier runs in the same process equals a fresh command line")
     ctx.extra["integer_options"] = ints
     ctx.trusted += [
         "pyvc, z3/cvc5; the YAML 'options' mapping abstracted (class Tree); int()/isdigit() vocabulary",
         "integer options = keywords of LibraryNode.default_options whose default is an int literal (read from the source)",
         "call-site check of create_wrapper/main against main_with_args is an attribute-name computation over the AST",
+        "history independence of create_wrapper: effect judgement of effects/roots.py over all module-/class-level mutable "
+        "roots (name-based alias closure; same assumptions as C07)",
+    ]
+    ctx.trusted += [
+        "util.Scope.clone / reparent / get_parent by assumed contract (new scope with the same content and parent; sets the "
+        "parent; returns it); FunctionNode.clone by assumed contract (new node, fmtdict/options are clones); a scope is "
+        "abstracted by the signature of its lookup chain (contracts/ast_clone.py)",
     ]
     ctx.not_covered += [
+        "ClassNode.clone outside the loop body (copy.copy, new.fmtdict/new.options clones, new.functions = newfcns)",
         "identity of two whole runs (relation between executions of the whole generator): bounded monitor m_options only",
         "util.Scope's own lookup semantics (parent fallback) and the per-argument attrs merge; the wiring check is per "
         "assignment statement (fresh child scope of the container's scope)",
     ]
+    if ctx.tier != "thorough":
+        r = ctx.monitor("m_equiv", "search", 110, ctx.seed)
+        ctx.bounded.append({"monitor": "m_equiv", "inputs_tried": r["tried"], "violation": r["violation"],
+                            "kind": "two-run relations, deterministic core: empty blocks / container vs each function in every "
+                                    "container kind, inline attributes vs attrs/fattrs"})
+        if r["violation"]:
+            ctx.violation("bounded/m_equiv", {"inputs": r["inputs"], "observed": r["violation"]}, True)
     if ctx.tier == "thorough":
+        r = ctx.monitor("m_equiv", "search", 400, ctx.seed)
+        ctx.bounded.append({"monitor": "m_equiv", "inputs_tried": r["tried"], "violation": r["violation"],
+                            "kind": "two-run relations on generated libraries: empty blocks, option/format on a container vs on "
+                                    "each function (library, namespace, class, class template), inline attributes vs attrs/fattrs"})
+        if r["violation"]:
+            ctx.violation("bounded/m_equiv", {"inputs": r["inputs"], "observed": r["violation"]}, True)
         r = ctx.monitor("m_options", "search", 40, ctx.seed)
         ctx.bounded.append({"monitor": "m_options", "inputs_tried": r["tried"], "violation": r["violation"],
                             "kind": "two-run relation on a small library: YAML option vs --option, --language, create_wrapper vs command line"})
